@@ -8,11 +8,20 @@ import (
 )
 
 // World families. Document locations exercise directory arithmetic:
-const (
+var (
 	vURoot = "file:///w/root.json"
 	vUSub  = "file:///w/sub/a.json"
 	vUFar  = "file:///x/c.json"
 )
+
+// vUseURLSet: 0 = local files; 1 = http documents, the third one on another port of the same host
+func vUseURLSet(k int) {
+	if k == 1 {
+		vURoot, vUSub, vUFar = "http://h.example:8001/w/root.json", "http://h.example:8001/w/sub/a.json", "http://h.example:8002/x/c.json"
+	} else {
+		vURoot, vUSub, vUFar = "file:///w/root.json", "file:///w/sub/a.json", "file:///x/c.json"
+	}
+}
 
 // keyword positions that can hold a sub-schema
 var vKwPos = []string{"properties", "items", "allOf", "additionalProperties", "tuple", "anyOf", "oneOf", "not", "additionalItems", "patternProperties", "dependencies", "definitions"}
@@ -67,6 +76,9 @@ func vSpell(holder, target, frag string, alt int) string {
 		vUSub:  {vURoot: "../root.json", vUSub: "a.json", vUFar: "../../x/c.json"},
 		vUFar:  {vURoot: "../w/root.json", vUSub: "../w/sub/a.json", vUFar: "./c.json"},
 	}
+	if (holder == vUFar) != (target == vUFar) && !strings.HasPrefix(vUFar, "file:") {
+		return target + "#" + frag // another authority: only the absolute form exists
+	}
 	return rel[holder][target] + "#" + frag
 }
 
@@ -91,6 +103,7 @@ func vPickRef(tag, holder string, targets []vTarget) string {
 // ---- family 1: schemas across three documents ----
 
 func vWorldSchemas() *vWorld {
+	vUseURLSet(0)
 	kp := vChoose(vParam("kwpos", len(vKwPos)), "kwpos")
 	targets := []vTarget{{doc: vURoot, frag: "/definitions/A"}, {doc: vURoot, frag: "/definitions/B"}, {doc: vUSub, frag: "/definitions/C%20d"}, {doc: vUFar, frag: "/definitions/D"}}
 	if vParam("nested_targets", 1) == 1 {
@@ -111,9 +124,38 @@ func vWorldSchemas() *vWorld {
 	return w
 }
 
+// small worlds aimed at two specific confusions: documents on different ports of one host, and
+// definition names that differ by letter case only
+func vWorldPorts() *vWorld {
+	vUseURLSet(1)
+	kp := vChoose(vParam("kwpos", len(vKwPos)), "kwpos")
+	a := vPickRef("A", vURoot, []vTarget{{doc: vUFar, frag: "/definitions/D", single: true}, {doc: vUSub, frag: "/definitions/C%20d"}})
+	c := vPickRef("C", vUSub, []vTarget{{doc: vUSub, frag: "/definitions/C%20d", single: true}, {doc: vUFar, frag: "/definitions/D", single: true}})
+	d := vPickRef("D", vUFar, []vTarget{{doc: vUFar, frag: "/definitions/D"}, {doc: vURoot, frag: "/definitions/A", single: true}})
+	w := &vWorld{root: vURoot, docs: map[string]string{}}
+	w.docs[vURoot] = `{"swagger":"2.0","info":{"title":"t","version":"1"},"paths":{},"definitions":{"A":` + vDefJSON("la", kp, vRefJSON(a)) + `}}`
+	w.docs[vUSub] = `{"definitions":{"C d":` + vDefJSON("lc", kp, vRefJSON(c)) + `}}`
+	w.docs[vUFar] = `{"definitions":{"D":` + vDefJSON("ld", kp, vRefJSON(d)) + `}}`
+	return w
+}
+
+func vWorldCaseTwins() *vWorld {
+	vUseURLSet(0)
+	kp := vChoose(vParam("kwpos", len(vKwPos)), "kwpos")
+	ts := []vTarget{{doc: vUSub, frag: "/definitions/E"}, {doc: vUSub, frag: "/definitions/e"}}
+	e1 := vPickRef("E", vUSub, ts)
+	e2 := vPickRef("e", vUSub, ts)
+	a := vPickRef("A", vURoot, ts)
+	w := &vWorld{root: vURoot, docs: map[string]string{}}
+	w.docs[vURoot] = `{"swagger":"2.0","info":{"title":"t","version":"1"},"paths":{},"definitions":{"A":` + vDefJSON("la", kp, vRefJSON(a)) + `}}`
+	w.docs[vUSub] = `{"definitions":{"E":` + vDefJSON("upper", kp, vRefJSON(e1)) + `,"e":` + vDefJSON("lower", kp, vRefJSON(e2)) + `}}`
+	return w
+}
+
 // ---- family 2: chains of parameter / response / path-item references crossing documents ----
 
 func vWorldChains(which int) *vWorld {
+	vUseURLSet(0)
 	pick := func(active bool, tag, holder string, targets []vTarget) string {
 		if !active {
 			return ""
